@@ -125,21 +125,40 @@ Fixpoint nm_set (m : names) (k : string) (v : nat) : names :=
 Definition has_operation (isa : option rc_entry) : bool :=
   match isa with Some e => match rc_op e with Some _ => true | None => false end | None => false end.
 
-(* for o in operands: if isinstance(o, MemoryOperand) and o.pre_indexed: ... (the last one wins) *)
+(* for o in operands:
+     if isinstance(o, MemoryOperand) and o.pre_indexed: ... (both dicts are REPLACED: the last one wins)
+     if isinstance(o, MemoryOperand) and o.base is not None and isinstance(o.post_indexed, dict):
+         reg_operand_names[base] = "op_post"; operand_state["op_post"] = {name: base, value: 0}
+   The key "op_post" is operand number 0 here (the opN keys start at 1). *)
+Definition op_post : nat := 0.
+Definition is_postdict (p : ipost) : bool := match p with PostFalse => false | _ => true end.
+
 Fixpoint pre_loop (hasop : bool) (ops : list iop) (acc : names * opstate) : res (names * opstate) :=
   match ops with
   | [] => Ok acc
-  | IMem base off true _ :: r =>
-    if hasop then Err EValueError
-    else match base with
-         | None => Err EAttributeError
-         | Some b =>
-           match off with
-           | OffImm v => pre_loop hasop r ([(b, 1%nat)], [(1%nat, mkO (Some b) v)])
-           | _ => Err EAttributeError
-           end
-         end
-  | _ :: r => pre_loop hasop r acc
+  | o :: r =>
+    let step1 : res (names * opstate) :=
+      match o with
+      | IMem base off true _ =>
+        if hasop then Err EValueError
+        else match base with
+             | None => Err EAttributeError                (* o.base.prefix *)
+             | Some b =>
+               match off with
+               | OffImm v => Ok ([(b, 1%nat)], [(1%nat, mkO (Some b) v)])
+               | _ => Err EAttributeError                 (* o.offset.value *)
+               end
+             end
+      | _ => Ok acc
+      end in
+    bind step1 (fun acc1 =>
+      let acc2 :=
+        match o with
+        | IMem (Some b) _ _ post =>
+          if is_postdict post then (nm_set (fst acc1) b op_post, st_set (snd acc1) op_post (mkO (Some b) (Some 0%Z))) else acc1
+        | _ => acc1
+        end in
+      pre_loop hasop r acc2)
   end.
 
 (* for i, o in enumerate(operands): ... *)
@@ -187,7 +206,7 @@ Definition get_reg_changes (has_mnem : bool) (dests : list string) (ops : list i
   else if only_postindexed then
     match find_post ops with
     | Some (b, PostImm v) => RcOk [(b, Some (mkO (Some b) (Some v)))]
-    | Some (b, _) => RcErr EKeyError                       (* o.post_indexed["value"] *)
+    | Some (b, _) => RcOk [(b, None)]                      (* post-index by a register: unknown change *)
     | None => RcOk []
     end
   else
